@@ -142,6 +142,14 @@ func dirWriterRules(c *Check, co *Corpus, fi *FuncInfo, funcs map[*ssaFuncKey]bo
 		return
 	}
 	deleted, skip := false, false
+	skipDetail := ""
+	// locals holding the previous content of a path: `was, err := os.ReadFile(path)`
+	prevContent := map[string]string{}
+	walkBlock(ir.Body, nil, func(m Node, _ []Guard) {
+		if cn, ok := m.(*CallN); ok && cn.Fn != nil && cn.Fn.Name() == "ReadFile" && cn.Fn.Pkg() != nil && cn.Fn.Pkg().Path() == "os" && len(cn.Args) == 1 && len(cn.Results) >= 1 {
+			prevContent[cn.Results[0]] = cn.Args[0]
+		}
+	})
 	for _, n := range writeBlock {
 		if n.P() >= writeCall.Pos {
 			break
@@ -153,11 +161,30 @@ func dirWriterRules(c *Check, co *Corpus, fi *FuncInfo, funcs map[*ssaFuncKey]bo
 					deleted = true
 				}
 			case *IfN:
-				// `if string(was) == code { …; continue }`
+				// `if string(was) == code { …; continue }` where was is the previous file's content read from the same
+				// path and code is exactly what WriteFile writes below
 				if m.Cond.Kind == "cmp" && m.Cond.Neg && m.Cond.Op == "!=" {
 					for _, t := range m.Then {
 						if b, ok := t.(*BranchN); ok && b.Tok == token.CONTINUE {
-							skip = true
+							unconv := func(x string) string {
+								return strings.TrimSuffix(strings.TrimPrefix(x, "conv("), ")")
+							}
+							data := ""
+							if len(writeCall.Args) >= 2 {
+								data = unconv(writeCall.Args[1])
+							}
+							l, rr := unconv(m.Cond.X), unconv(m.Cond.Y)
+							other := ""
+							switch data {
+							case l:
+								other = rr
+							case rr:
+								other = l
+							}
+							if other != "" && len(writeCall.Args) >= 1 && prevContent[other] == writeCall.Args[0] {
+								skip = true
+							}
+							skipDetail = fmt.Sprintf("skip test compares %s with %s; data written: %s; previous content of the same path: %v", m.Cond.X, m.Cond.Y, data, prevContent)
 						}
 					}
 				}
@@ -165,7 +192,7 @@ func dirWriterRules(c *Check, co *Corpus, fi *FuncInfo, funcs map[*ssaFuncKey]bo
 		})
 	}
 	c.Ob("outdir/handled-file-leaves-stale-set", name, deleted, pos(writeCall.Pos), "each generated path is deleted from the set of pre-existing files before it is written")
-	c.Ob("outdir/unchanged-file-not-rewritten", name, skip, pos(writeCall.Pos), "os.WriteFile is skipped (continue) when the previous content equals the new content")
+	c.Ob("outdir/unchanged-file-not-rewritten", name, skip, pos(writeCall.Pos), "os.WriteFile is skipped (continue) only when the previous content of the same path, read back in full, equals the bytes about to be written: "+skipDetail)
 	// 4. stale deletion: after the write phase, range over the remaining set and os.Remove each
 	staleOK := false
 	var contGuards []string
